@@ -381,6 +381,8 @@ Definition h_until_completion (ixc ixa : N) (_ : unit) (i : N) (v : value) : opt
   (if i =? ixc then Some (ROk tt) else if i =? ixa then Some (RErr (EAborted (abort_code v))) else None, tt).
 Definition h_pending (ixa : N) (_ : unit) (i : N) (v : value) : option (cres (list N)) * unit :=
   (Some (if i =? ixa then
+           (* since the fix of F11: the answer to the query carries ErrorPreAuthorization (0xB8); any other code aborts the query *)
+           if negb (abort_code v =? 184) then RErr (EAborted (abort_code v)) else
            match field_of "zvt::packets::PartialReversalAbort" v 135 with
            | Some (VSome (VInt r)) => if r =? 65535 then ROk [] else ROk [r]
            | _ => ROk []
@@ -486,6 +488,10 @@ Definition canon_uid (u : list N) : list N :=
     end
   else u.
 
+(* an entry of the application list that names a payment application (tag 0x43) *)
+Definition has_application (s : value) : bool :=
+  match field_of "zvt::packets::tlv::Subs" s 67 with Some (VSome _) => true | _ => false end.
+
 (* the classification of read_card: a fold over the replies *)
 Definition h_read_card (ixa ixs : N) (acc : option card) (i : N) (v : value) : option (cres card) * option card :=
   if i =? ixa then
@@ -495,11 +501,9 @@ Definition h_read_card (ixa ixs : N) (acc : option card) (i : N) (v : value) : o
     match field_of "zvt::packets::StatusInformation" v 6 with
     | Some (VSome tlv) =>
         match field_of "zvt::packets::tlv::StatusInformation" tlv 96, field_of "zvt::packets::tlv::StatusInformation" tlv 76 with
-        | Some (VList (s0 :: _)), _ =>
-            match field_of "zvt::packets::tlv::Subs" s0 67 with
-            | Some (VSome _) => (None, Some CBank)
-            | _ => (Some (RErr EUnknownCardType), acc)
-            end
+        | Some (VList (s0 :: sr)), _ =>
+            (* since the fix of F12: a payment application ANYWHERE in the list (before: only in its first entry) *)
+            if existsb has_application (s0 :: sr) then (None, Some CBank) else (Some (RErr EUnknownCardType), acc)
         | _, Some (VSome (VStr u)) => (None, Some (CMember (canon_uid u)))
         | _, _ => (Some (RErr EIncomplete), acc)
         end
